@@ -24,7 +24,7 @@ import lib
 PROPS = {"OutputAllowed": "OutputAllowed", "CloseCode": "OutputAllowed (prescribed close code)", "NoStartBeforeInit": "NoStartBeforeInit",
          "OneTerminal": "OneTerminal", "NothingAfterTerminal": "NothingAfterTerminal", "NeverWedged": "NeverWedged",
          "NoPanic": "NeverWedged (no crash)"}
-VARIANTS = {"init": 3, "initrej": 2, "ping": 2, "unknown": 3, "malformed": 6, "binary": 3, "subbad": 6,
+VARIANTS = {"init": 3, "initrej": 2, "ping": 2, "unknown": 3, "malformed": 6, "binary": 3, "subbad": 8,
             "readerr": 7}   # readerr (conn mode): 0 = the transport fails the read, 1-6 = corrupt but aligned frames through the real codec
 FRAGS = [2, 3, 12, 13]      # conn mode: message sent as 2/3 fragments (+10: a WebSocket ping control frame in between)
 END = {"ev": "end", "a": "", "id": "", "k": 0, "n": 0, "code": 0}
@@ -85,6 +85,8 @@ def make_case(cid, proto, mode, steps, rng=None):
     for s in steps:
         s = dict(s)
         s["v"] = 0
+        if rng is not None and proto == "gws" and s["t"] == "in" and s["sym"] == "ping":
+            s["sym"] = rng.choice(["ping", "pong", "unknown", "binary"])   # all alike for graphql-ws; the generator uses one
         if rng is not None and s["t"] == "in" and s["sym"] in VARIANTS:
             s["v"] = rng.randrange(VARIANTS[s["sym"]])
         if rng is not None and mode == "conn" and s["t"] == "in" and s["sym"] != "readerr" and rng.random() < 0.3:
@@ -103,18 +105,22 @@ def v2_steps(steps):
     kinds = {}
     for i, s in enumerate(out):
         if s["t"] == "in" and (s["sym"].startswith("sub") or s["sym"] == "missingid"):
-            kinds[i + 1] = "s" if s["sym"] in ("sub1s", "sub2s") else "q"
+            kinds[i + 1] = "s" if s["sym"] in ("sub1s", "sub2s", "sub2ds") else "q"
     first = {}
     for s in out:
         if s.get("hold") or s["t"] in ("release", "broken", "tick", "initgo") or s.get("sym") in ("subbad", "initslow"):
             return None
         if s["t"] == "eng":
+            if s["what"] == "qflush":
+                return None
             kd = kinds.get(s["k"])
             if kd is None or (kd == "s" and s["what"] != "error"):
                 return None
             if kd == "q":
                 first.setdefault(s["k"], s["what"])
     for k, what in first.items():
+        if what == "error" and out[k - 1]["sym"] == "sub1dq":
+            return None      # the two-operation document is valid: its query cannot be made to fail
         out[k - 1]["v"] = 1 if what == "error" else 0
     return out
 
@@ -128,7 +134,7 @@ def nontrivial(case):
     return len(ins) >= 2 and (any(s["t"] != "in" for s in case["steps"]) or len({s["sym"] for s in ins}) >= 2)
 
 
-def replay_chunk(ctx, binary, idx, cases):
+def replay_chunk(ctx, binary, idx, cases, env=None):
     """Run one chunk in a child process. A crash of a goroutine inside the code under test kills the child:
     the crashing case is reported and the rest of the chunk is run in a fresh process."""
     cp = ctx.path("cases-%03d.ndjson" % idx)
@@ -141,7 +147,7 @@ def replay_chunk(ctx, binary, idx, cases):
     crashes = []
     skip = 0
     for _ in range(20):
-        p = ctx.run_bin(binary, ["-in", cp, "-out", ep, "-res", rp, "-skip", str(skip)], timeout=3000, check=False)
+        p = ctx.run_bin(binary, ["-in", cp, "-out", ep, "-res", rp, "-skip", str(skip)], timeout=3000, check=False, env=env)
         if p.returncode == 0:
             break
         marks = re.findall(r"^CASE (\d+) (\S+)$", p.stderr, re.M)
@@ -241,6 +247,8 @@ def run(ctx):
                              tag="mc-negative-" + c) for c in ("tws", "gws")}
         gens = {p: ex.submit(ctx.tlc, gdirs, "Gen_WSServer", "Gen_WSServer_%s_3.cfg" % p, workers=2, timeout=900, deadlock=False,
                              tag="gen-%s-3" % p) for p in ("tws", "gws")}
+        gensx = {p: ex.submit(ctx.tlc, gdirs, "Gen_WSServer", "Gen_WSServer_%s_x.cfg" % p, workers=2, timeout=900, deadlock=False,
+                              tag="gen-%s-x" % p) for p in ("tws", "gws")}
         for c, f in futs.items():
             r = f.result()
             if not r.ok:
@@ -251,6 +259,7 @@ def run(ctx):
             if r.violated != "NothingAfterTerminal":
                 raise lib.Inconclusive("sanity: the acceptor should reject the pinned server model (%s), got %r" % (c, r.error))
         gen3 = {p: f.result() for p, f in gens.items()}
+        genx = {p: f.result() for p, f in gensx.items()}
     if not quick:
         # a larger configuration of the reference server (4 client messages, 3 engine events)
         with concurrent.futures.ThreadPoolExecutor(max_workers=2) as ex:
@@ -310,6 +319,75 @@ def run(ctx):
             p, exhaustive[p], len(scheds), len(bro), len(tim)))
         for i, st in enumerate(scheds + bro + tim):
             cases.append(make_case("%s-x-%06d" % (p, i), p, "tc", st))
+        # every payload shape of an undeserializable subscribe (missing, string, array, number, null, {} ...), before and after init
+        sb = [x for x in scheds if any(y.get("sym") == "subbad" for y in x)]
+        if quick:
+            sb = sorted(sb, key=len)[:150]
+        nsb = 0
+        for i, st in enumerate(sb):
+            for v in range(1, VARIANTS["subbad"]):
+                c = make_case("%s-b-%06d-%d" % (p, i, v), p, "tc" if (i + v) % 2 else "conn", st)
+                for y in c["steps"]:
+                    if y.get("sym") == "subbad":
+                        y["v"] = v
+                cases.append(c)
+                nsb += 1
+        # targeted configuration: the two-operation document (operation selected by operationName) and queries that flush a
+        # chunk before their result, next to / after subscriptions
+        r = genx[p]
+        if not r.ok:
+            print(r.out[-3000:])
+            raise lib.Inconclusive("generator Gen_WSServer_%s_x failed: %s" % (p, r.error))
+        ux = {}
+        for b in r.printed:
+            ux[lib.sha(b["steps"])] = b["steps"]
+        xs = [ux[k] for k in sorted(ux)]
+        def subs_then_flush(x):
+            seen = False
+            for y in x:
+                if y["t"] == "in" and y["sym"] in ("sub1s", "sub2ds"):
+                    seen = True
+                if y["t"] == "eng" and y["what"] == "qflush" and seen:
+                    return True
+            return False
+        def writer_reused(x):
+            """a stopped subscription's goroutine has ended (its pooled result writer is back in the pool) before the
+            flushing query starts"""
+            kinds = {i + 1: y["sym"] for i, y in enumerate(x) if y["t"] == "in"}
+            for y in x:
+                if y["t"] == "eng" and y["what"] == "qflush":
+                    start = y["k"]          # index (1-based) of the subscribe that created the flushing query
+                    stopped = set()
+                    for i, z in enumerate(x[:start - 1]):
+                        if z["t"] == "in" and z["sym"] == "comp1":
+                            stopped.add("1")
+                        if z["t"] == "eng" and z["what"] in ("fin", "error") and kinds.get(z["k"]) in ("sub1s",) and "1" in stopped:
+                            return True
+            return False
+        xf = sorted([x for x in xs if subs_then_flush(x)], key=lambda x: not writer_reused(x))
+        nre = sum(1 for x in xf if writer_reused(x))
+        head, tail = xf[:nre], xf[nre:]
+        rng.shuffle(head)
+        rng.shuffle(tail)
+        xf = head[:(400 if quick else len(head))] + tail
+        xd = [x for x in xs if not any(y.get("what") == "qflush" for y in x) and
+              {"sub1dq", "sub2ds"} <= {y.get("sym") for y in x}]
+        rng.shuffle(xd)
+        if quick:
+            xf, xd = xf[:700], xd[:400]
+        for i, st in enumerate(xf):
+            c = make_case("%s-f-%06d" % (p, i), p, "tc", st)
+            c["pool1"] = True     # run with one P and no GC: the engine's pooled result writers are re-used deterministically
+            cases.append(c)
+        nd = 0
+        for i, st in enumerate(xd):
+            cases.append(make_case("%s-d-%06d" % (p, i), p, "tc", st))
+            v2s = v2_steps(st)
+            if v2s is not None and any(y["t"] == "eng" for y in v2s):
+                cases.append({"id": "%s-w-%06d" % (p, i), "proto": p, "mode": "v2", "steps": v2s})
+                nd += 1
+        ctx.log("%s: %d subscribe-payload cases, %d flush-after-subscription schedules (of %d; pooled writer re-used in %d), %d two-operation-document schedules (%d with "
+                "the real ExecutorV2)" % (p, nsb, len(xf), len([x for x in xs if subs_then_flush(x)]), nre, len(xd), nd))
         # the same schedules over the real frame codec, with seed-chosen wire variants of the symbols
         conn = scheds if p == "tws" else rng.sample(scheds, min(len(scheds), 1500 if quick else 20000))
         conn = conn + (bro[:60] if quick else bro[:2000]) + (tim[:100] if quick else tim[:2000])
@@ -385,13 +463,20 @@ def replay_and_judge(ctx, binary, cases, nproc, single=False):
     limit = 6000   # cases per TLC validation run
     while (len(cases) + nchunks - 1) // nchunks > limit:
         nchunks += nproc
-    chunks = [cases[i::nchunks] for i in range(nchunks)]
+    pool1 = [c for c in cases if c.get("pool1")]
+    rest = [c for c in cases if not c.get("pool1")]
+    chunks = [rest[i::nchunks] for i in range(nchunks)]
+    envs = [None] * len(chunks)
+    if pool1:
+        k1 = max(1, min(4, len(pool1) // 200 + 1))
+        chunks += [pool1[i::k1] for i in range(k1)]
+        envs += [{"GOMAXPROCS": "1", "GOGC": "off"}] * k1
     results = {}
     verdicts = {}
     crashes = []
     eps = []
     with concurrent.futures.ThreadPoolExecutor(max_workers=nproc) as ex:
-        futs = [ex.submit(replay_chunk, ctx, binary, i, ch) for i, ch in enumerate(chunks)]
+        futs = [ex.submit(replay_chunk, ctx, binary, i, ch, envs[i]) for i, ch in enumerate(chunks)]
         for f in futs:
             ep, rp, cr = f.result()
             eps.append(ep)
